@@ -191,6 +191,15 @@ def generators(ctx, RA, RG, P) -> None:
                                 continue
                             raise AnalysisError(f"{construct}: the source path `{c['text'][:120]}` is computed in a way this rule does not know (known: slice by prefix length, replace(a, b, 1), removeprefix, relpath + join)")
                         good_dir = c["x"] == joined and c["a"] == walked and c["b"] == src_param
+                        if not good_dir and c["anchored"] is True and c["x"] == joined and c["a"] == "W_root":
+                            # rewritten in two anchored steps: the walked directory's own old name once per directory
+                            # (W_root: dest -> src), then the entry under it (join(W_root, name): W_root -> that old name)
+                            try:
+                                c2 = classify_rewrite(ast.parse(c["b"], mode="eval").body)
+                            except SyntaxError:
+                                c2 = None
+                            if c2 and c2.get("anchored") is True and c2["x"] == "W_root" and c2["a"] == walked and c2["b"] == src_param:
+                                good_dir = True
                         ctx.check(
                             c["anchored"] is True and good_dir,
                             RA,
